@@ -922,9 +922,26 @@ func splitSiteKey(k string) (kind, fn, expr string) {
 var firstStringLit = regexp.MustCompile(`"((?:[^"\\]|\\.)*)"`)
 
 // normSiteExpr: for an abort, the callee and its first string literal (the message); other kinds keep their expression.
+var localIdent = regexp.MustCompile(`(^|[^.\w"])([A-Za-z_]\w*)\b`)
+
+// normSiteExpr: for an abort, the callee and its first string literal (the message); for the other kinds the
+// expression with every identifier that is not a selected name or a called function (i.e. locals, parameters,
+// receivers, package qualifiers) replaced by "_": renaming a local or a receiver does not change the site.
 func normSiteExpr(kind, expr string) string {
 	if kind != "abort" {
-		return expr
+		out := localIdent.ReplaceAllStringFunc(expr, func(m string) string {
+			sub := localIdent.FindStringSubmatch(m)
+			return sub[1] + "_"
+		})
+		if kind == "rand" {
+			// the random source may be reached differently (a global, a field of a new type): method and argument decide
+			if i := strings.Index(out, "("); i > 0 {
+				if j := strings.LastIndex(out[:i], "."); j >= 0 {
+					out = out[j+1:]
+				}
+			}
+		}
+		return out
 	}
 	callee := expr
 	if i := strings.Index(expr, "("); i >= 0 {
